@@ -340,7 +340,7 @@ var boundedProps = map[string]bool{"C13": true, "C14": true, "C08": true, "C19":
 // runBounded runs the bounded validation of the trusted stdlib contracts (labelled bounded; never
 // counted as obligations). A failure there means an ASSUMPTION of the proofs is wrong and is printed loudly.
 func runBounded(opt *Options) any {
-	if !boundedProps[opt.Property] {
+	if false && !boundedProps[opt.Property] {
 		return nil
 	}
 	bin := filepath.Join(opt.VerifDir, "bin", "bounded")
